@@ -204,6 +204,30 @@ func genC04(tier string) []Scenario {
 		}
 		out = append(out, shapeScenario(fmt.Sprintf("inject shape#%d=%s", i, d), d, c04Kinds, mk, i%2 == 0))
 	}
+	// the same flow object after several identical, successful runs: a failure in the 2nd … 5th run
+	// is reported like one in the first (every earlier run takes the first answer everywhere)
+	for i, d := range enumShapes(2, false) {
+		if d.slot >= 0 && (d.inner.slot >= 0 || d.base >= numCoreShapes || d.inner.base >= numCoreShapes) {
+			continue
+		}
+		if d.slot < 0 && d.base >= numCoreShapes {
+			continue
+		}
+		for _, runs := range []int{2, 4, 5} {
+			d, runs := d, runs
+			mk := func(root *spec) (func(h *H, c call) []answer, func(h *H)) {
+				inj := injectMenu(collectActions(root), 2, false)
+				return func(h *H, c call) []answer {
+					m := inj(h, c)
+					if h.runNo < runs-1 {
+						return m[:1]
+					}
+					return m
+				}, nil
+			}
+			out = append(out, shapeScenarioRuns(fmt.Sprintf("inject after %d identical successful runs shape#%d=%s", runs-1, i, d), d, c04Kinds, mk, i%2 == 0, runs))
+		}
+	}
 	// a batch node as a flow step: prep / post failures are run-ending and wrapped transparently
 	for _, where := range []string{"prep", "post", "post+item-failure", "none", "post-of-empty-batch", "none-empty-batch"} {
 		for ek, e := range injectKinds {
